@@ -269,6 +269,9 @@ func c16Programs(quick bool) []c16Case {
 		"print \"one \ntwo\t\nthree\\n\";",
 		"print <<'EOT';\ntrailing blanks  \n\ttab line\t\nEOT",
 		"print length('a \n b'), \"\\n\";   ",
+		/* Lines that merely look like the end of the program. */
+		"print <<'EOT';\nline\n__END__\nstill in the here-doc\nEOT\nprint \"after\\n\";",
+		"print \"a\n__DATA__\nb\\n\"; exit 5;",
 	}
 	leads := []string{"", "#!/usr/bin/perl\n", "#\n", "# text comment\n", "#!/usr/bin/perl\n#\n# TABDOC: prog does things\n# second ' comment\n", "# comment\n\n# not lead any more\n"}
 	var progs []string
@@ -316,7 +319,7 @@ func c16Programs(quick bool) []c16Case {
 
 func c16(r *ev.Result, tier string) {
 	quick := isQuick(tier)
-	r.Rule = "programs: one per byte value 1..255 in single- and double-quoted literals; 135 consecutive lengths x 2 shapes; every sequence of <=2 (thorough 3) statements over a 14-statement grammar " +
+	r.Rule = "programs: one per byte value 1..255 in single- and double-quoted literals; 135 consecutive lengths x 2 shapes; every sequence of <=2 (thorough 3) statements over a 16-statement grammar " +
 		"(literals, @ARGV, STDIN, sub, here-doc, block, exit 0/3/255, die, __END__) x 6 leading-comment shapes x 2 argument/stdin settings; 12 argument vectors x 3 programs; sizes 1..64 KiB; empty and whitespace-only; " +
 		"each under dash and bash. Oracles: dynamic (stdout, status / die message vs perl on the script) and static (reference uudecoding of the function body vs the statement's program text). distinct = distinct (script, args, stdin, shell)."
 	cases := c16Programs(quick)
